@@ -495,9 +495,11 @@ pub fn explore(
     let max_trace = AtomicUsize::new(0);
     let incomplete = AtomicBool::new(false);
     let nw = crate::util::n_workers().min(12);
+    let widx = AtomicUsize::new(0);
     std::thread::scope(|sc| {
         for _ in 0..nw {
             sc.spawn(|| {
+                let w = 32 + widx.fetch_add(1, O::SeqCst);
                 let scratch = crate::util::Scratch::new("e3w");
                 loop {
                     if budget.exceeded() {
@@ -525,6 +527,7 @@ pub fn explore(
                         }
                     };
                     let dir = scratch.fresh("x");
+                    let _g = crate::util::announce(w, || format!("E3 execution with schedule prefix {prefix:?}"));
                     let mut new_prefixes: Vec<Vec<usize>> = Vec::new();
                     let mut tr = 0usize;
                     let mut visit = |p: &Point, so_far: &[usize]| -> bool {
